@@ -31,7 +31,12 @@ JudgeC15(e) ==
         b0 == Build(e.m, e.cls, e.id, e.pbf = 1, kw0)
     IN IF b0.err # "" /\ e.structural = 0 THEN "triv"
        ELSE IF e.out \notin {"ubx", "msg"} THEN "C15:escaped-as:" \o e.out
-       ELSE IF e.structural = 0 /\ e.tgt[1] \notin b0.names THEN "triv"   \* the attribute is not part of the message built
+       \* a keyword that names no attribute of the message built (in this view): refused, or the message is built exactly as without it
+       ELSE IF e.structural = 0 /\ e.tgt[1] \notin b0.names THEN
+            \* (unless its mere presence selects another variant of the message: datumNum, tpIdx ... are discriminators)
+            (IF BuildSelect(e.m, e.cls, e.id, Append(kw0, e.tgt)) # b0.def THEN "triv"
+             ELSE IF e.out = "msg" /\ b0.err = "" /\ e.P # b0.pl THEN "C15:keyword-naming-no-attribute-altered-the-payload:" \o e.tgt[1]
+             ELSE IF e.out = "msg" /\ b0.err = "" THEN "ok" ELSE "triv")
        ELSE IF e.out = "ubx" THEN "ok"
        ELSE IF Len(e.P) > 65535 THEN "C15:accepted-a-payload-no-frame-can-carry:" \o e.tgt[1]
        ELSE IF e.tgt[2] = "?" THEN "C15:accepted-unrepresentable-value:" \o e.tgt[1]
